@@ -45,7 +45,7 @@ func (c11) Runs(tier string) int {
 
 func (p c11) Run(runseed uint64, tier string, acc *Acc) []*core.Violation {
 	r := core.NewRng(runseed)
-	o := core.HistOpts{Shapes: allShapes, PageMin: 1, PageMax: 8, MinBatches: 0, MaxBatches: 4, MaxOps: 30, Profile: core.Benign, LargePct: 1, ManyPct: 1, ManyMax: 60, HugePct: 1, BoundaryPct: 3,
+	o := core.HistOpts{Shapes: allShapes, PageMin: 1, PageMax: 8, MinBatches: 0, MaxBatches: 4, MaxOps: 30, Profile: core.Benign, LargePct: 1, ManyPct: 1, ManyMax: 60, HugePct: 1, BoundaryPct: 3, GiantPct: 2,
 		// any history a caller may issue produces "a valid file": include Writes with nothing pending and records
 		// pending at Close (what a writer does with them at Close decides which prefixes look complete)
 		EmptyWrites: true, PendingClose: true}
@@ -93,11 +93,17 @@ func (p c11) Run(runseed uint64, tier string, acc *Acc) []*core.Violation {
 	acc.MixFP(f.Digest)
 	acc.Inc("codec/" + f.W.Codec)
 	acc.Inc("shape/" + f.W.Shape)
+	if f.W.ReadAs != "" {
+		acc.Inc("reader/permuted-struct")
+	}
 	if f.W.Large {
 		acc.Inc("class/large")
 	}
 	if f.W.Many {
 		acc.Inc("class/many-row-groups")
+	}
+	if f.W.Giant {
+		acc.Inc("class/giant-page")
 	}
 	if f.W.Huge {
 		acc.Inc("class/huge-values")
@@ -163,7 +169,7 @@ func (p c11) Run(runseed uint64, tier string, acc *Acc) []*core.Violation {
 	}
 	// prefixes that end in the magic get past the footer check: read them in the sandbox
 	if len(riskyCuts) > 0 && len(vios) < 3 {
-		res, err := riskyRead(f.W.Shape, f.Data, riskyCuts, riskyKinds, limit, fmt.Sprintf("sim-%016x.parquet", f.Digest))
+		res, err := riskyRead(f.W.ReadShape(), f.Data, riskyCuts, riskyKinds, limit, fmt.Sprintf("sim-%016x.parquet", f.Digest))
 		if err != nil {
 			acc.Inc("sandbox/child-error")
 			acc.Unusable++
@@ -241,7 +247,7 @@ func (p c11) check(c *core.Case, f *fileWL, limit int) (*core.Violation, *core.R
 	src := core.NewSource(f.Data[:cut:cut], nil, nil)
 	src.MaxCalls = 400000 + 400*len(f.Data)
 	src.FileName = fmt.Sprintf("sim-%016x.parquet", f.Digest) // the crash leaves a shorter file under the same name
-	rr := core.ExecReader(f.W.Shape, src.AsReadSeeker(kindOr(c.SourceKind)), limit, nil)
+	rr := core.ExecReader(f.W.ReadShape(), src.AsReadSeeker(kindOr(c.SourceKind)), limit, nil)
 	region, _ := f.regionAt(cut)
 	mk := func(sig, detail string) (*core.Violation, *core.ReadResult, int) {
 		return &core.Violation{Prop: "C11", Sig: "C11/" + sig + "/" + region,
@@ -277,7 +283,7 @@ func (p c11) Check(c *core.Case) (*core.Violation, error) {
 		return nil, fmt.Errorf("the complete file is not accepted by the reader")
 	}
 	if riskyCut(f.Data, *c.Cut) {
-		res, err := riskyRead(f.W.Shape, f.Data, []int{*c.Cut}, []string{kindOr(c.SourceKind)}, limit, fmt.Sprintf("sim-%016x.parquet", f.Digest))
+		res, err := riskyRead(f.W.ReadShape(), f.Data, []int{*c.Cut}, []string{kindOr(c.SourceKind)}, limit, fmt.Sprintf("sim-%016x.parquet", f.Digest))
 		if err != nil {
 			return nil, err
 		}
@@ -575,5 +581,5 @@ func c11FullRead(f *fileWL, limit int) *core.ReadResult {
 	src := core.NewSource(f.Data, nil, nil)
 	src.MaxCalls = 400000 + 400*len(f.Data)
 	src.FileName = fmt.Sprintf("sim-%016x.parquet", f.Digest)
-	return core.ExecReader(f.W.Shape, src.AsReadSeeker("rsf"), limit, nil)
+	return core.ExecReader(f.W.ReadShape(), src.AsReadSeeker("rsf"), limit, nil)
 }
